@@ -144,6 +144,7 @@ class Scenario:
         self.bare = set()        # ends that handled a frame with a bare `deliver` and had no real round since
         self.followed = {'c': set(), 's': set()}   # flows that had an explicit callback since that end's last bare `deliver`
         self.idle_bad = []       # real passes that did not lower the measure and yet left something to do at their end
+        self.dead_bad = []       # real passes that reached select() with a finished handler still in the list
         self.mu_bad = []         # real passes that did not decrease the termination measure although they changed the state
         self.wrote = {}          # (flow, 'app'|'dst') -> bytes written by the endpoint (harness log)
 
@@ -170,6 +171,9 @@ class Scenario:
             mu0, show0 = self.t.mu(), self.t.show()
         if not self.s.do(st):
             self.stop = True
+        if self.t.dead_at_select:
+            self.dead_bad.append((len(self.s.ins), st[1] if len(st) > 1 else '?', self.t.dead_at_select[0]))
+            del self.t.dead_at_select[:]
         if src is not None and not self.t.died:
             # C02_bounded_work on the real objects: a real pass of the loop never raises the measure and lowers it
             # whenever it changes anything
@@ -485,6 +489,15 @@ def oracle_quiet(ctx, sc, prop):
                'once a flow\'s handler has been dropped nothing references its socket any more (the descriptor is closed, '
                'the endpoint is not left hanging)', 'still referenced: %r' % (left[:4],))
         return False
+    if getattr(sc, 'dead_bad', None):
+        at, end, n = sc.dead_bad[0]
+        report(ctx, sc, '%s:work:finished-handler-still-listed-when-the-loop-waits' % prop, 0,
+               'pass of end %s ending at script line %d' % (end, at),
+               'every handler that has finished is out of the handler list by the time the loop calls select() (it may '
+               'sleep there for ever; the handler holds the flow\'s sockets open)',
+               '%d finished handler(s) still listed at select()' % n)
+        sc.dead_bad = []
+        return False
     if getattr(sc, 'idle_bad', None):
         at, end, n0, state = sc.idle_bad[0]
         report(ctx, sc, '%s:work:idle-pass-leaves-work' % prop, 0, 'pass of end %s ending at script line %d' % (end, at),
@@ -627,12 +640,15 @@ def replay_work(case):
     try:
         for st in decode_steps(case['steps']):
             sc.do(st)
-            if sc.stop or sc.mu_bad or sc.idle_bad:
+            if sc.stop or sc.mu_bad or sc.idle_bad or sc.dead_bad:
                 break
         if sc.t.died:
             return True, 'process died: %s' % sc.t.died
         if sc.mu_bad:
             return True, 'a pass changed the state without lowering the measure: %d -> %d' % sc.mu_bad[0][1:3]
+        if sc.dead_bad:
+            return True, ('the pass of end %s ending at script line %d reached select() with %d finished handler(s) '
+                          'still in the handler list' % (sc.dead_bad[0][1], sc.dead_bad[0][0], sc.dead_bad[0][2]))
         if sc.idle_bad:
             at, end, n0, state = sc.idle_bad[0]
             return True, ('a pass of end %s did not lower the measure although %d frame(s) were waiting and/or a handler '
@@ -1258,7 +1274,7 @@ def continue_fairly(s, script_lines=(), max_rounds=600):
     sc.stop = False
     sc.bare = set()
     sc.followed = {'c': set(), 's': set()}
-    sc.idle_bad, sc.mu_bad, sc.wrote = [], [], {}
+    sc.idle_bad, sc.mu_bad, sc.dead_bad, sc.wrote = [], [], [], {}
     return sc.drain(max_rounds=max_rounds)
 
 
@@ -1279,6 +1295,51 @@ def replay_torn_down(s, case):
     bad = (st['client_handler'] or st['server_handler'] or st['client_id_held'] or st['server_id_held']
            or not st['app_shut'] or not st['dst_shut'])
     return bad, ('flow %d after the recorded schedule and a fair continuation: %r' % (i, st))
+
+
+def flows_finish_in_one_pass(ctx, rng, prop, nflows, end):
+    """Several flows, adjacent in the handler list, finish in the SAME pass of one end's loop (the peer's last data
+    and end-of-stream for all of them arrive in one read), and then nothing happens any more: every one of them is
+    torn down — handlers out of the list before the loop goes to sleep, ids free, sockets released."""
+    o = Opts(nflows=nflows, steps=0)
+    sc = Scenario(rng, o)
+    try:
+        t = sc.t
+        full = Io('ok', 'd65536', 's65536', False)
+        for _ in range(nflows):
+            sc.do(('accept',))
+        sc.drain()
+        if sc.stop or len(t.flows) < nflows:
+            return sc.s.ins, sc.s.outs
+        near, far = ('c', 's') if end == 'c' else ('s', 'c')
+        close_near, close_far = (('ae', 'de') if end == 'c' else ('de', 'ae'))
+        side_far = 'dst' if end == 'c' else 'app'
+        for i in range(nflows):
+            sc.do((close_near, i))                 # this end's endpoints half-close first
+        sc.drain()
+        for i in range(nflows):
+            sc.env_write(i, side_far, payload(rng, 300 + 17 * i, 40 + i))
+            sc.do((close_far, i))
+        farq = t.smux if far == 's' else t.cmux
+        nearq = t.smux if near == 's' else t.cmux
+        sc.do(('round', far, len(nearq.outbuf), 'auto', full))     # the far end frames data + EOF of every flow
+        sc.do(('round', far, len(nearq.outbuf), 'auto', full))
+        sc.do(('round', near, len(farq.outbuf), 'auto', full))     # ... and they all arrive in one read
+        sc.do(('round', near, len(farq.outbuf), 'auto', full))     # the pass after: clean-up, then the loop waits
+        sc.do(('round', near, len(farq.outbuf), 'auto', full))
+        q = sc.drain()
+        if not sc.stop:
+            oracle_eof_order(ctx, sc, prop, 'end')
+            oracle_complete(ctx, sc, prop, q)
+            if q:
+                oracle_teardown(ctx, sc, prop)
+                oracle_quiet(ctx, sc, prop)
+            else:
+                report(ctx, sc, '%s:liveness:no-quiescence-within-bound' % prop, 0, 'drain', 'quiescent', 'still changing')
+        oracle_alive(ctx, sc, prop, 'run')
+        return sc.s.ins, sc.s.outs
+    finally:
+        sc.close()
 
 
 def replay_script(lines, steps=None):
